@@ -1,7 +1,10 @@
 ---------------------------- MODULE MC_TimeLimiter ----------------------------
 EXTENDS TimeLimiter, Json
 MCCfgSet == [T : {0, 2, 4}, perReq : {0, 1}, cancel : {0, 1}, ord : {0}, lazy : {0}]
+TourCfgSet == [T : {0, 2}, perReq : {0, 1}, cancel : {0, 1}, ord : {0}, lazy : {0}]
 MCOuts == {"ok", "e1"}
 MCKeys == {1, 3}
+\* transition tour: every transition of the (small) model, printed with the level of its source state
+TourDump == PrintT(<<"EDGE", TLCGet("level"), ToJson([f |-> view, t |-> view', cfg |-> cfg, ev |-> ev'])>>)
 GenPrint == PrintT(<<"GEN", TLCGet("level"), ToJson([cfg |-> cfg, ev |-> ev])>>)
 =============================================================================
